@@ -41,10 +41,18 @@ class Q:
 
 def _run(cmd, env, timeout):
     t0 = time.time()
+    proc = subprocess.Popen(cmd, env=env, cwd=HERE, stdout=subprocess.PIPE, stderr=subprocess.PIPE, text=True,
+                            start_new_session=True)
     try:
-        p = subprocess.run(cmd, env=env, cwd=HERE, capture_output=True, text=True, timeout=timeout)
+        so, se = proc.communicate(timeout=timeout)
     except subprocess.TimeoutExpired:
+        try:
+            os.killpg(proc.pid, 9)          # the query process and any solver it started
+        except OSError:
+            pass
+        proc.communicate()
         return {"verdict": "timeout", "detail": f"outer timeout {timeout}s", "wall_s": round(time.time() - t0, 2)}
+    p = subprocess.CompletedProcess(cmd, proc.returncode, so, se)
     line = p.stdout.strip().splitlines()[-1] if p.stdout.strip() else ""
     try:
         out = json.loads(line)
